@@ -115,7 +115,7 @@ func init() {
 		Assumptions: []string{"fmt.Fprint*/io.Writer.Write/io.WriteString report the bytes they wrote", "returns inside `if err != nil` are error exits whose count is not part of the property"},
 		Run: func(c *Ctx) {
 			seqs := []string{"io/seqio/fasta", "io/seqio/fastq"}
-			c.guard("bytecount", func() { ruleByteCount(c, "bytecount", seqs...); c.floor("bytecount", 14) })
+			c.guard("bytecount", func() { ruleByteCount(c, "bytecount", seqs...); c.floor("bytecount", 8) })
 			c.guard("lineio/fragments", func() { ruleFragments(c, "lineio/fragments", seqs...); c.floor("lineio/fragments", 10) })
 			c.guard("tables/markers", func() { ruleMarkers(c); c.floor("tables/markers", 5) })
 			c.guard("tables/quality", func() { ruleQuality(c) })
@@ -153,7 +153,7 @@ func init() {
 				ruleIntervalCoherent(c, "intervalcoherent", "io/featio/bed", "io/featio/gff")
 				c.floor("intervalcoherent", 9)
 			})
-			c.guard("bytecount", func() { ruleByteCount(c, "bytecount", "io/featio/bed", "io/featio/gff"); c.floor("bytecount", 28) })
+			c.guard("bytecount", func() { ruleByteCount(c, "bytecount", "io/featio/bed", "io/featio/gff"); c.floor("bytecount", 16) })
 		},
 	})
 	cloneTargets := [][2]string{
@@ -446,7 +446,7 @@ func init() {
 			c.guard("broadcast", func() { ruleBroadcast(c, "broadcast"); c.floor("broadcast", 1) })
 			c.guard("mailbox", func() {
 				ruleMailbox(c, "mailbox", "(*Promise).fulfill", "(*Promise).fail", "(*Promise).Wait")
-				c.floor("mailbox", 4)
+				c.floor("mailbox", 3)
 			})
 			c.guard("closerspawn", func() { ruleCloserSpawn(c, "closerspawn"); c.floor("closerspawn", 1) })
 			c.guard("addbeforego", func() { ruleAddBeforeGo(c, "addbeforego"); c.floor("addbeforego", 1) })
